@@ -65,6 +65,40 @@ def check(run, prog, tier):
     run.rule("C14-L", "the eigenbasis in which thermal states are defined comes from a diagonalisation on every path (no 'already "
                       "diagonal' short cut under an absolute tolerance)", minimum=1)
     rule_L(run, prog)
+    run.rule("C14-N", "'the bath defines no temperature' and 'the bath functions define different temperatures' are told apart: the "
+                      "question has_temperature() does not answer 'no' by catching every failure of get_temperature() (the builders "
+                      "take 'no' for zero temperature)", minimum=1)
+    rule_N(run, prog)
+
+
+def rule_N(run, prog):
+    """'... the thermal ones have populations in the ratio exp(-(E_a-E_b)/kT)': the T is that of the bath.  The aggregate
+    asks sbi.has_temperature() and builds the T = 0 state when the answer is no.  CorrelationFunctionMatrix raises both when
+    no function carries a temperature and when the functions disagree; a handler around get_temperature() that returns
+    False for whatever was raised turns a bath at 300 K and 100 K into 'no temperature'.  Accepted: no such handler, or a
+    separate test for disagreement that raises (outside the handler) in the same method."""
+    rid = "C14-N"
+    sb = prog.cls("quantarhei.qm.liouvillespace.systembathinteraction.SystemBathInteraction")
+    f = prog.find_method(sb, "has_temperature")
+    if f is None:
+        raise AnalysisError("SystemBathInteraction.has_temperature not found")
+    prog.consulted.add(f.relpath)
+    swallowing = []
+    for t_ in walk_no_nested(f.node):
+        if isinstance(t_, ast.Try) and any(isinstance(c_, ast.Call) and (call_name(c_) or "").split(".")[-1] == "get_temperature"
+                                           for b_ in t_.body for c_ in ast.walk(b_)):
+            for h in t_.handlers:
+                broad = h.type is None or norm(h.type) in ("Exception", "BaseException")
+                answers_no = any(isinstance(r_, ast.Return) and isinstance(r_.value, ast.Constant) and r_.value.value is False
+                                 for r_ in ast.walk(h))
+                if broad and answers_no:
+                    swallowing.append(h)
+    handler_nodes = {id(x_) for h in swallowing for x_ in ast.walk(h)}
+    separate = any(isinstance(x_, ast.Raise) and id(x_) not in handler_nodes for x_ in walk_no_nested(f.node))
+    run.obligation(rid, f.short, (not swallowing) or separate, key="disagreement-not-swallowed",
+                   message="has_temperature() returns False for every exception of get_temperature(): the matrix of correlation "
+                           "functions raises also when its functions are at different temperatures, and the aggregate then builds "
+                           "its thermal states for T = 0 instead of refusing", loc=f.loc(swallowing[0] if swallowing else f.node))
 
 
 def rule_L(run, prog):
